@@ -57,15 +57,17 @@ Proof.
   { unfold utf8_enc, nbytes. destruct (c <? 0x80); [reflexivity|]. destruct (c <? 0x800); [reflexivity|].
     destruct (c <? 0x10000); reflexivity. }
   unfold utf16_enc. destruct (N.ltb_spec c 0x10000) as [Hs|Hb].
-  - cbn [app length]. unfold x8_to_step.
+  - cbn [app length]. unfold x8_to_step. cbv zeta.
     assert (Ep : ((0xD800 <=? c) && (c <=? 0xDBFF)) = false) by lia. rewrite Ep.
+    assert (Eq : ((0xDC00 <=? c) && (c <=? 0xDFFF)) = false) by lia. rewrite Eq.
     rewrite <- (enc_bytes_spec c) by lia. rewrite Hlen in Hroom. unfold nbytes in *.
     destruct (N.ltb_spec c 0x80). { destruct (Nat.ltb_spec room 1); [lia|reflexivity]. }
     destruct (N.ltb_spec c 0x800). { destruct (Nat.ltb_spec room 2); [lia|reflexivity]. }
     destruct (N.ltb_spec c 0x10000); [|lia]. destruct (Nat.ltb_spec room 3); [lia|reflexivity].
-  - cbn [app length]. unfold x8_to_step.
+  - cbn [app length]. unfold x8_to_step. cbv zeta.
     remember (0xD800 + (c - 0x10000) / 1024) as u eqn:Eu. remember (0xDC00 + (c - 0x10000) mod 1024) as t eqn:Et.
     assert (Ep : ((0xD800 <=? u) && (u <=? 0xDBFF)) = true) by lia. rewrite Ep.
+    assert (Et2 : ((t <? 0xDC00) || (0xDFFF <? t)) = false) by lia. rewrite Et2.
     assert (Ev : ((u - 0xD800) * 1024 + (t + w32 - 0xDC00) + 0x10000) mod w32 = c) by (unfold w32; lia).
     rewrite Ev. rewrite <- (enc_bytes_spec c) by lia. rewrite Hlen in Hroom. unfold nbytes in *.
     destruct (N.ltb_spec c 0x80); [lia|]. destruct (N.ltb_spec c 0x800); [lia|].
